@@ -1,6 +1,6 @@
 (* C07 — optional, variant and expected track the same state and value as the std types.
    Property theorems only: each is closed by [exact] of a lemma proved in Dispatch.v,
-   VariantProofs.v, OptionalProofs.v, ExpectedProofs.v, SelectProofs.v, followed by
+   VariantProofs.v, OptionalProofs.v, ExpectedProofs.v, RefProofs.v, SelectProofs.v, followed by
    Print Assumptions.
    Model = executable mirror of the etl code (Model.v); Spec = tagged values (Spec.v).
    "wf" hypotheses say only that the active index of the initial objects is a valid index
@@ -9,7 +9,7 @@
    outcomes Contract (a TETL_PRECONDITION in unchecked_get / operator* / error() fired),
    UB and OutOfFuel. *)
 From Tetl Require Import Lib.Base C07.Types C07.Model C07.Spec C07.Dispatch C07.VariantProofs
-  C07.OptionalProofs C07.ExpectedProofs C07.SelectProofs.
+  C07.OptionalProofs C07.ExpectedProofs C07.RefProofs C07.SelectProofs.
 Local Open Scope nat_scope.
 
 (** * visit: the dispatcher reaches exactly the tuple of active indices — any arity, any sizes *)
@@ -115,6 +115,29 @@ Theorem C07_optional_or_else_spec : forall T s g, wfo s ->
 Proof. exact opt_or_else_ok. Qed.
 Print Assumptions C07_optional_or_else_spec.
 
+(* the ref-qualified overloads of and_then (4), or_else (2), value_or (2), operator* (4), by the value
+   category q of the object: result, category handed to the callable, and the object afterwards
+   (a non-const rvalue is left engaged with a moved-from value when something was move-constructed from it) *)
+Theorem C07_optional_and_then_qualified_spec : forall T q s f byval, wfo s ->
+  exists m, opt_and_then_q T q s f byval = Ok m /\ abs_oq m = so_and_then_q T q (abso s) f byval /\ wfo (snd m).
+Proof. exact opt_and_then_q_ok. Qed.
+Print Assumptions C07_optional_and_then_qualified_spec.
+
+Theorem C07_optional_or_else_qualified_spec : forall T q s g, wfo s ->
+  exists m, opt_or_else_q T q s g = Ok m /\ abs_pq m = so_or_else_q T q (abso s) g /\ wfo (snd m).
+Proof. exact opt_or_else_q_ok. Qed.
+Print Assumptions C07_optional_or_else_qualified_spec.
+
+Theorem C07_optional_value_or_qualified_spec : forall T q s d, wfo s ->
+  exists m, opt_value_or_q T q s d = Ok m /\ abs_pq m = so_value_or_q T q (abso s) d /\ wfo (snd m).
+Proof. exact opt_value_or_q_ok. Qed.
+Print Assumptions C07_optional_value_or_qualified_spec.
+
+Theorem C07_optional_take_qualified_spec : forall T q s r, wfo s -> so_take_q T q (abso s) = Some r ->
+  exists m, opt_take_q T q s = Ok m /\ abs_pq m = r /\ wfo (snd m).
+Proof. exact opt_take_q_ok. Qed.
+Print Assumptions C07_optional_take_qualified_spec.
+
 Theorem C07_optional_deref_spec : forall s v, abso s = Some v -> opt_deref s = Ok v.
 Proof. exact opt_deref_spec. Qed.
 Print Assumptions C07_optional_deref_spec.
@@ -147,11 +170,63 @@ Theorem C07_expected_or_else_spec : forall s g, wfe s ->
 Proof. exact exp_or_else_ok. Qed.
 Print Assumptions C07_expected_or_else_spec.
 
-(** * optional<T&> *)
-Theorem C07_optional_ref_refines_pointer_cell : forall ops s,
-  exists s', rrun s ops = Ok s' /\ absr s' = sr_run (absr s) ops.
+(* the four ref-qualified overloads: value category handed to the callable, result, and what the
+   object is left with (fix 5f9f27c: && moves, const& does not) *)
+Theorem C07_expected_and_then_qualified_spec : forall T E q s f byval, wfe s ->
+  exists m, exp_and_then_q T E q s f byval = Ok m
+    /\ abs_qres m = se_and_then_q T E q (abse s) f byval /\ wfe (snd m).
+Proof. exact exp_and_then_q_ok. Qed.
+Print Assumptions C07_expected_and_then_qualified_spec.
+
+Theorem C07_expected_or_else_qualified_spec : forall T E q s g byval, wfe s ->
+  exists m, exp_or_else_q T E q s g byval = Ok m
+    /\ abs_qres m = se_or_else_q T E q (abse s) g byval /\ wfe (snd m).
+Proof. exact exp_or_else_q_ok. Qed.
+Print Assumptions C07_expected_or_else_qualified_spec.
+
+Theorem C07_expected_value_or_qualified_spec : forall T q s d, wfe s ->
+  exists m, exp_value_or_q T q s d = Ok m /\ abs_eq m = se_value_or_q T q (abse s) d /\ wfe (snd m).
+Proof. exact exp_value_or_q_ok. Qed.
+Print Assumptions C07_expected_value_or_qualified_spec.
+
+Theorem C07_expected_take_qualified_spec : forall T q s r, wfe s -> se_take_q T q (abse s) = Some r ->
+  exists m, exp_take_q T q s = Ok m /\ abs_eq m = r /\ wfe (snd m).
+Proof. exact exp_take_q_ok. Qed.
+Print Assumptions C07_expected_take_qualified_spec.
+
+Theorem C07_expected_take_error_qualified_spec : forall E q s r, wfe s -> se_take_error_q E q (abse s) = Some r ->
+  exists m, exp_take_error_q E q s = Ok m /\ abs_eq m = r /\ wfe (snd m).
+Proof. exact exp_take_error_q_ok. Qed.
+Print Assumptions C07_expected_take_error_qualified_spec.
+
+(** * optional<T&> (incl. the converting constructor optional<T&>(optional<U> const&)) *)
+(* whenever the P2988 pointer-cell semantics is defined for a history (it is undefined only for a
+   write through a reference whose referent, the source's contained object, has been destroyed),
+   the code runs without contract violation / UB and ends in the prescribed state *)
+Theorem C07_optional_ref_refines_pointer_cell : forall T ops s s1,
+  wfr s -> sr_run (absr s) ops = Some s1 ->
+  exists s', rrun T s ops = Ok s' /\ absr s' = s1 /\ wfr s'.
 Proof. exact rrun_refines. Qed.
 Print Assumptions C07_optional_ref_refines_pointer_cell.
+
+Theorem C07_optional_ref_deref_spec : forall s p v,
+  sr_deref (cells s) (abso (src s)) p = Some v -> ref_deref (cells s) (src s) p = Ok v.
+Proof. exact ref_deref_ok. Qed.
+Print Assumptions C07_optional_ref_deref_spec.
+
+(* fix af01b1f: engaged iff the source optional is engaged, then bound to the contained object *)
+Theorem C07_optional_ref_from_optional_engaged_iff : forall T s t, wfr s ->
+  exists s', rstep T s (RFromOpt t) = Ok s'
+    /\ fst (rpick t s') = (if has_value (src s) then Some RSrc else None)
+    /\ snd (rpick t s') = snd (rpick t s) /\ src s' = src s /\ cells s' = cells s /\ pz s' = pz s.
+Proof. exact ref_from_opt_engaged_iff. Qed.
+Print Assumptions C07_optional_ref_from_optional_engaged_iff.
+
+Theorem C07_optional_ref_sees_source_assignment : forall T s v, wfr s ->
+  exists s', rstep T s (RSrcAssign v) = Ok s' /\ pa s' = pa s /\ pb s' = pb s /\ pz s' = pz s
+    /\ ref_deref (cells s') (src s') (Some RSrc) = Ok v.
+Proof. exact ref_sees_source_assignment. Qed.
+Print Assumptions C07_optional_ref_sees_source_assignment.
 
 (** * unexpected *)
 Theorem C07_unexpected_refines_std : forall E ops s, urun E s ops = su_run E s ops.
